@@ -10,7 +10,10 @@ The statement as given is false of the unchanged code in three places, each prov
 concrete witness, with the `_partial` theorem stating what does hold:
   * user keys "host" / "connection" (valid per the statement) do not reach the handler
     (`md_roundtrip_counterexample_host`, `md_roundtrip_counterexample_connection`);
-  * content-type IS surfaced as user metadata on both sides (`content_type_surfaced_*`, F17).
+  * content-type IS surfaced as user metadata on both sides (`content_type_surfaced_*`, F17);
+  * grpc-accept-encoding, which the client transport adds whenever a compressor is registered in its
+    process, is surfaced to the handler like user metadata and is not even in the reserved table
+    (`accept_encoding_surfaced_counterexample`, F30).
 -/
 import GrpcProofs.Lemmas.MdWire
 namespace GrpcProofs.C09
@@ -38,11 +41,27 @@ theorem per_key_order (md : MD) (added : List (Bytes × Bytes)) (key : Bytes) (h
       (md.filter fun kv => kv.1 = key).flatMap (·.2) ++ ((added.filter fun p => lower p.1 = key).map (·.2)) :=
   Lemmas.MdWire.valsFor_sentPairs md added key hk
 
-/-- The transport contributes exactly :authority, content-type (F17) and user-agent. -/
+/-- The transport contributes exactly :authority, content-type (F17), user-agent and, when
+    compressors are registered in the client process, grpc-accept-encoding (F30). -/
 theorem transport_added_keys (c : CallCfg) :
-    baseMD c = [(hAuthority, [c.authority]), (hContentType, [contentTypeOf c.subtype]), (hUserAgent, [c.userAgent])] := rfl
+    baseMD c = [(hAuthority, [c.authority]), (hContentType, [contentTypeOf c.subtype]), (hUserAgent, [c.userAgent])] ++
+      (if c.acceptEncoding.isEmpty then [] else [(hAcceptEncoding, [c.acceptEncoding])]) := rfl
 
-def demoCfg : CallCfg := ⟨asciiBytes "http", asciiBytes "/s/m", asciiBytes "a", [], asciiBytes "ua"⟩
+def demoCfg : CallCfg :=
+  { scheme := asciiBytes "http", path := asciiBytes "/s/m", authority := asciiBytes "a", subtype := [], userAgent := asciiBytes "ua" }
+
+/-- the same client with a compressor registered (e.g. after importing encoding/gzip) -/
+def demoCfgGzip : CallCfg := { demoCfg with acceptEncoding := asciiBytes "gzip" }
+
+/-- F30: with a compressor registered the handler sees `grpc-accept-encoding` although the user
+    sent no metadata at all — a header the transport adds is surfaced as user metadata — and the
+    name is not in `isReservedHeader`, so user metadata may carry it as well (its values are then
+    appended after the transport's). -/
+theorem accept_encoding_surfaced_counterexample :
+    isReservedHeader hAcceptEncoding = false ∧
+    ∃ F m, clientSend demoCfgGzip [] [] = some F ∧ serverRecv F = .handler m ∧
+      mdGet m hAcceptEncoding = [asciiBytes "gzip"] := by
+  refine ⟨by decide, _, baseMD demoCfgGzip, rfl, by decide, by decide⟩
 
 /-- "host" is valid user metadata, is sent, and is discarded by the server (A41 Host rules). -/
 theorem md_roundtrip_counterexample_host :
